@@ -59,11 +59,25 @@ def new_ctx():
     return CTX[0]
 
 
+def simplify_with_axioms(x):
+    """normal form of a rational expression modulo the root axioms (s^2 = radicand)"""
+    num, den = sp.fraction(sp.together(x))
+    num = reduce_axioms(num); den = reduce_axioms(den)
+    if den == 1 or den.is_number:
+        return sp.expand(num / den)
+    return sp.cancel(num / den)
+
+
 def _sqrt(x):
     x = exact(x) if not isinstance(x, sp.Basic) else x
     if not x.free_symbols:
         return sp.sqrt(x)
-    xe = sp.expand(x)
+    xe = simplify_with_axioms(x)
+    if not xe.free_symbols:
+        return sp.sqrt(xe)
+    r = sp.sqrt(xe)
+    if not (r.is_Pow and r.exp == sp.Rational(1, 2)) and not r.has(sp.Abs):
+        return r                      # e.g. sqrt(s**2) = s for a non-negative root symbol
     for s, rad in CTX[0].sqrt.items():
         if sp.expand(rad - xe) == 0:
             return s
